@@ -29,6 +29,10 @@ PROP = Property(
                  "byte buffer: cursor functions (len, consume, tag, tag_rollback, tag_clear, tag_length, set_length, "
                  "set_position, get_position, is_const, append_finish) are generated from the C source and used inside "
                  "the model; sizes below 2^62, byte arguments are bytes (buf_op_ok)",
+                 "byte buffer: which allocation request of ares_buf_split belongs to which piece (buf_split_piece_reqs: "
+                 "1 per kept piece + array growth at pieces 0, 4, 8, 16 ...) is read off ares_buf_create / "
+                 "ares_array_set_size and checked by the '!<n>sx' cases; ares_buf_parse_dns_binstr_int reads ONE "
+                 "character-string in this tree",
                  "hash table: the hash function is any function compatible with the key equality (theorems quantify over it)"],
     generated_fns=["ares_buf_len", "ares_buf_consume", "ares_buf_tag", "ares_buf_tag_rollback", "ares_buf_tag_clear",
                    "ares_buf_tag_length", "ares_buf_set_length", "ares_buf_set_position", "ares_buf_get_position",
